@@ -318,6 +318,7 @@ def decide(prop, tier, seed, quiet=False, vc=None):
         "delegated_to_bounded": vc.get("delegated_to_bounded", []),
         "cross_check": vc.get("cross_check", {}),
         "mutation_selftest": vc.get("mutation_selftest", {}),
+        "axiom_model_check": vc.get("axiom_model_check", {}),
         "vacuity_covers": vc.get("covers", {}),
         "evaluations": rtc.get("evaluations", 0),
         "distinct_nontrivial": rtc.get("distinct_nontrivial", 0),
